@@ -21,6 +21,7 @@
 #include <verif/verif.h>
 #define OS_LOCK_HOOKS
 #define OS_POLL_HOOK
+#define OS_FUTEX_HOOK
 #include <verif/os_stubs.h>
 #define RCU_MEMBARRIER
 #include <verif/flavor_pre.h>
@@ -48,9 +49,16 @@ void *G_tail_addr;
 unsigned long G_lock_events_at_splice, G_list_del_ok, G_queue_touched_before_stopped, G_stopped_seen;
 
 static void evt_barrier(int kind, void *addr);
+/* helper sleep path (h_helper_sleep) */
+unsigned long G_sleep_mode, S_dec, S_mb_since_dec, S_empty_check_fenced, S_empty_checks, S_waits, S_sleep_bad, S_unfenced_read;
 static void evt(int kind, void *addr, int mo, unsigned long val)
 {
 	(void) mo; (void) val;
+	if (G_sleep_mode && G_crdp) {
+		if ((kind == EV_ADD || kind == EV_ADDRET) && addr == (void *) &G_crdp->futex) { S_dec++; S_mb_since_dec = 0; }
+		if (kind == EV_MB && S_dec) S_mb_since_dec = 1;
+		if (kind == EV_LOAD && (addr == (void *) &G_crdp->cbs_head.node.next || addr == (void *) &G_crdp->cbs_tail.p)) { S_empty_checks++; S_empty_check_fenced = S_dec && S_mb_since_dec; if (S_dec && !S_mb_since_dec) S_unfenced_read = 1; }
+	}
 	if (kind == EV_XCHG && addr == G_tail_addr) { E_xchg_tail++; E_mb_after_enq = 1; }	/* the tail exchange is itself a full barrier */
 	if (kind == EV_MB && E_xchg_tail) E_mb_after_enq = 1;
 	if (kind == EV_LOAD && addr == (void *) G_futex_addr) { E_futex_loads++; E_futex_load_fenced = E_mb_after_enq; }
@@ -62,8 +70,21 @@ unsigned long G_monitor_bad;
 /* monitor invariant of call_rcu_mutex (what rcu_barrier relies on): a helper that still has queued callbacks is on
  * call_rcu_data_list.  Checked at every release of the mutex. */
 static void os_unlock_hook(pthread_mutex_t *m);
+struct item;
+static void sleep_env_enqueue(void);
+/* FUTEX_WAIT of the helper: legal only on -1, after (decrement -> full barrier -> queue seen empty); then a producer enqueues a
+ * callback and wakes the helper exactly as _call_rcu does (enqueue, barrier, futex -1 -> 0, FUTEX_WAKE) */
+static void os_futex_hook(int *uaddr, int op, int val)
+{
+	if (!G_sleep_mode || op != 0 /* FUTEX_WAIT */) return;
+	S_waits++;
+	if (uaddr != (int *) &G_crdp->futex || val != -1 || G_crdp->futex != -1 || !S_empty_check_fenced
+	    || G_crdp->cbs_head.node.next != 0 || G_crdp->cbs_tail.p != &G_crdp->cbs_head.node) S_sleep_bad = 1;
+	sleep_env_enqueue();
+}
 static int os_poll_hook(void)
 {
+	if (G_sleep_mode && G_crdp && S_waits) G_crdp->flags |= URCU_CALL_RCU_STOP;	/* after the wake-up: let the next pass be the last */
 	/* the helper thread reacts to STOP while we poll */
 	if (G_crdp && (G_crdp->flags & URCU_CALL_RCU_STOP)) G_crdp->flags |= URCU_CALL_RCU_STOPPED;
 	return 0;
@@ -89,7 +110,7 @@ static void q_put(struct call_rcu_data *c, struct item *it)
 
 /* assumed contract of synchronize_rcu (C01): a grace period elapses; meanwhile another thread may enqueue one
  * more callback on the helper's queue (it is enqueued at the very end of that grace period at the earliest) */
-unsigned long G_env_enq;
+unsigned long G_env_enq, G_env_enq0;
 #define TAILP (G_crdp->cbs_tail.p)
 #define OLDT __CPROVER_old(G_crdp->cbs_tail.p)
 #define NX(k) (IT[k].head.next.next)
@@ -97,15 +118,16 @@ unsigned long G_env_enq;
 void urcu_memb_synchronize_rcu(void)
 __CPROVER_requires(G_crdp != 0)
 __CPROVER_requires(TAILP == &G_crdp->cbs_head.node || TAILP == &IT[0].head.next || TAILP == &IT[1].head.next || TAILP == &IT[2].head.next)
-__CPROVER_assigns(G_gp, ENV_IT, G_crdp->cbs_tail.p, G_crdp->cbs_head.node.next, IT[0].head.next.next, IT[1].head.next.next, IT[2].head.next.next, G_crdp->qlen)
-__CPROVER_ensures(G_gp == __CPROVER_old(G_gp) + 1)
+__CPROVER_assigns(G_gp, G_env_enq, ENV_IT, G_crdp->cbs_tail.p, G_crdp->cbs_head.node.next, IT[0].head.next.next, IT[1].head.next.next, IT[2].head.next.next, G_crdp->qlen)
+__CPROVER_ensures(G_gp == __CPROVER_old(G_gp) + 1 && G_env_enq == 0)	/* the environment enqueues at most once */
 /* an enqueue = exchange of the tail + link of the old tail's next; everything else unchanged */
-__CPROVER_ensures(HN == ((G_env_enq && OLDT == &G_crdp->cbs_head.node) ? &ENV_IT.head.next : __CPROVER_old(HN)))
-__CPROVER_ensures(NX(0) == ((G_env_enq && OLDT == &IT[0].head.next) ? &ENV_IT.head.next : __CPROVER_old(NX(0))))
-__CPROVER_ensures(NX(1) == ((G_env_enq && OLDT == &IT[1].head.next) ? &ENV_IT.head.next : __CPROVER_old(NX(1))))
-__CPROVER_ensures(NX(2) == ((G_env_enq && OLDT == &IT[2].head.next) ? &ENV_IT.head.next : __CPROVER_old(NX(2))))
-__CPROVER_ensures(TAILP == (G_env_enq ? &ENV_IT.head.next : OLDT) && G_crdp->qlen == __CPROVER_old(G_crdp->qlen) + (G_env_enq ? 1 : 0))
-__CPROVER_ensures(!G_env_enq || (ENV_IT.head.next.next == 0 && ENV_IT.head.func == user_cb && ENV_IT.enq_gp == G_gp))
+__CPROVER_ensures(HN == ((__CPROVER_old(G_env_enq) && OLDT == &G_crdp->cbs_head.node) ? &ENV_IT.head.next : __CPROVER_old(HN)))
+__CPROVER_ensures(NX(0) == ((__CPROVER_old(G_env_enq) && OLDT == &IT[0].head.next) ? &ENV_IT.head.next : __CPROVER_old(NX(0))))
+__CPROVER_ensures(NX(1) == ((__CPROVER_old(G_env_enq) && OLDT == &IT[1].head.next) ? &ENV_IT.head.next : __CPROVER_old(NX(1))))
+__CPROVER_ensures(NX(2) == ((__CPROVER_old(G_env_enq) && OLDT == &IT[2].head.next) ? &ENV_IT.head.next : __CPROVER_old(NX(2))))
+__CPROVER_ensures(TAILP == (__CPROVER_old(G_env_enq) ? &ENV_IT.head.next : OLDT) && G_crdp->qlen == __CPROVER_old(G_crdp->qlen) + (__CPROVER_old(G_env_enq) ? 1 : 0))
+__CPROVER_ensures(!__CPROVER_old(G_env_enq) || (ENV_IT.head.next.next == 0 && ENV_IT.head.func == user_cb && ENV_IT.enq_gp == G_gp))
+__CPROVER_ensures(__CPROVER_old(G_env_enq) || (ENV_IT.head.next.next == __CPROVER_old(ENV_IT.head.next.next) && ENV_IT.head.func == __CPROVER_old(ENV_IT.head.func) && ENV_IT.enq_gp == __CPROVER_old(ENV_IT.enq_gp)))	/* frame */
 ;
 static int set_thread_cpu_affinity(struct call_rcu_data *crdp) __CPROVER_requires(1) __CPROVER_assigns() __CPROVER_ensures(__CPROVER_return_value == 0);
 void urcu_memb_register_thread(void) __CPROVER_requires(1) __CPROVER_assigns() __CPROVER_ensures(1);
@@ -156,7 +178,7 @@ void h_thread_iteration(void)
 	struct call_rcu_data c; unsigned long n, k;
 	VIN(unsigned long, in_n); VIN(unsigned long, in_env); VIN(unsigned long, in_rt);
 	n = in_n; VERIF_REQUIRE(n <= 3);
-	q_init(&c); G_crdp = &c; G_gp = 7; G_calls = 0; G_env_enq = in_env & 1;
+	q_init(&c); G_crdp = &c; G_gp = 7; G_calls = 0; G_env_enq = in_env & 1; G_env_enq0 = G_env_enq;
 	for (k = 0; k < 3; k++) if (k < n) q_put(&c, &IT[k]);
 	c.flags = URCU_CALL_RCU_STOP | ((in_rt & 1) ? URCU_CALL_RCU_RT : 0);	/* STOP: the loop runs exactly one iteration */
 	c.futex = 0;
@@ -170,11 +192,30 @@ void h_thread_iteration(void)
 			VERIF_ASSERT(G_called[k] == &IT[k].head, "helper: callbacks run in FIFO order, each with its own rcu_head");
 			VERIF_ASSERT(G_called_gp[k] > IT[k].enq_gp, "helper: a callback runs only after a grace period that started after it was queued");
 		}
-		VERIF_ASSERT(c.qlen == (G_env_enq ? 1 : 0), "helper: qlen reduced by the number of callbacks invoked");
-		if (G_env_enq) VERIF_ASSERT(c.cbs_head.node.next == &ENV_IT.head.next && ENV_IT.head.func == user_cb, "helper: the callback enqueued during the grace period is still queued, untouched");
+		VERIF_ASSERT(c.qlen == (G_env_enq0 ? 1 : 0), "helper: qlen reduced by the number of callbacks invoked");
+		if (G_env_enq0) VERIF_ASSERT(c.cbs_head.node.next == &ENV_IT.head.next && ENV_IT.head.func == user_cb, "helper: the callback enqueued during the grace period is still queued, untouched");
 	}
 	VERIF_ASSERT((c.flags & URCU_CALL_RCU_STOPPED) && c.futex == 0, "helper: acknowledges STOP (STOPPED set, futex 0)");
-	VERIF_COVER(n == 3 && G_env_enq); VERIF_COVER(n == 0); VERIF_COVER(n == 1 && !G_env_enq);
+	VERIF_COVER(n == 3 && G_env_enq0); VERIF_COVER(n == 0); VERIF_COVER(n == 1 && !G_env_enq0);
+}
+
+/* ---- C03.O2b: the helper's sleep path ------------------------------------------------------------------ */
+static void sleep_env_enqueue(void) { q_put(G_crdp, &IT[0]); G_crdp->futex = 0; }
+void h_helper_sleep(void)
+{
+	struct call_rcu_data c;
+	q_init(&c); G_crdp = &c; G_gp = 7; G_calls = 0; G_sleep_mode = 1;
+	/* pass 1: one callback queued; another one (ENV_IT) is enqueued during its grace period => the queue is NOT empty when the
+	 * helper decides whether to sleep; pass 2 runs ENV_IT, then the queue is empty => sleep; a producer enqueues IT[0] and wakes
+	 * the helper; pass 3 runs IT[0] and stops */
+	q_put(&c, &IT[1]); G_env_enq = 1;
+	c.flags = 0; c.futex = 0;				/* not real-time: sleeps on its futex when idle */
+	(void) call_rcu_thread(&c);
+	VERIF_ASSERT(S_waits == 1 && !S_sleep_bad, "helper: sleeps (FUTEX_WAIT on -1) only after futex decrement -> full barrier -> queue seen EMPTY - never while callbacks are queued (a callback enqueued after that check finds the futex at -1 and wakes the helper)");
+	VERIF_ASSERT(!S_unfenced_read, "helper: never reads its queue between a futex decrement and the full barrier that follows it");
+	VERIF_ASSERT(G_calls == 3 && G_called[0] == &IT[1].head && G_called[1] == &ENV_IT.head && G_called[2] == &IT[0].head && G_called_gp[2] > IT[0].enq_gp, "helper: every callback - queued before, during a grace period, or while it slept - is run once, in order, after a grace period");
+	VERIF_ASSERT((c.flags & URCU_CALL_RCU_STOPPED) && c.futex == 0, "helper: stops with the futex reset");
+	VERIF_COVER(S_waits == 1);
 }
 
 /* ---- C03.O4: freeing a helper with leftovers --------------------------------------------------------- */
